@@ -416,6 +416,15 @@ def r6_shared_recognisers(ctx):
         for o in fn(ctx):
             yield o
 
+def r9_shared_path_suffix(ctx):
+    """the walker counts occurrences per node path: two different segments of one loop that share a path share a counter,
+    and a conformant document with one of each is reported as exceeding the limit.  C16.R13 (shared): the loader's
+    qualifier-suffix code, interpreted over every shipped map, gives same-position segments distinct paths."""
+    from . import c16
+    for o in c16.r13_suffix_code_over_data(ctx):
+        yield o
+
+
 def stale_segment_values(ctx, modname, qual, loop_iter):
     """In the segment loop of a driver, a value read from a non-envelope segment (BHT02 ...) describes the CURRENT
     transaction set only.  Envelope values (ISA/GS/ST elements) legitimately live across iterations, they are
@@ -495,5 +504,6 @@ RULES = [
     Rule('C02.R5', 'walker counting/ordering atoms: limits, resets, pending-missing conditions, position filter', r5_walker_wiring, floor=12),
     Rule('C02.R6', 'shared with C13.R1/R3/R4: the recognisers accept every value of the X12 value languages', r6_shared_recognisers, floor=33),
     Rule('C02.R7', 'the map-switch key (BHT02) is never carried from one transaction set to the next', r7_no_stale_map_key, floor=1),
+    Rule('C02.R9', 'shared with C16.R13: same-position segments get distinct counter paths (loader suffix code interpreted over the maps)', r9_shared_path_suffix, floor=100),
     Rule('C02.R8', 'shared with C01.R3/R5: no segment is damaged at a buffer boundary', r8_shared_tokenizer, floor=6),
 ]
